@@ -178,7 +178,10 @@ func (s *stressRun) producer() {
 			}
 			p.waiting.Store(false)
 		}
-		c := appendChunk(make([]byte, 0, 16+d.MaxPayload), d.Seed, i, d.MaxPayload)
+		c := stressChunk(make([]byte, 0, 16+d.MaxPayload), &d, i)
+		if len(c) == 0 {
+			obs["empty_chunks_enqueued"]++
+		}
 		if d.Bounds {
 			s.started.Add(1)
 		}
@@ -210,71 +213,90 @@ func (s *stressRun) producer() {
 	s.prodDone.Store(true)
 }
 
+// chunkEmpty: chunk i of the run is an empty (non-nil, zero length) chunk.
+func chunkEmpty(d *Desc, i int) bool {
+	return d.EmptyPm > 0 && int(mix64(uint64(d.Seed)*0x9e3779b1^uint64(i)*0x85ebca77)%1000) < d.EmptyPm
+}
+
+// stressChunk appends chunk i of the run to dst (nothing for an empty chunk).
+func stressChunk(dst []byte, d *Desc, i int) []byte {
+	if chunkEmpty(d, i) {
+		return dst
+	}
+	return appendChunk(dst, d.Seed, i, d.MaxPayload)
+}
+
+const (
+	fDeq = iota + 1
+	fAll
+	fReq
+	fDepth
+	fRefill // deep rounds: give the producer the time to fill the room the consumer just made
+)
+
 func (s *stressRun) consumer() {
 	p := &s.cons
 	p.enter()
 	defer p.leave(func() { s.abort.Store(true) })
-	d := s.d
+	d := &s.d
 	r := xrng{uint64(d.Seed)*5 + 2}
 	obs := s.obs
 	tr := s.trace
 	var (
-		next int // index of the first whole chunk not yet taken
+		// The first chunk not yet taken is nLo..nHi: all chunks in [nLo, nHi) are empty chunks that a
+		// DequeueAll may or may not have taken (they add no byte to its result). nLo == nHi unless
+		// empty chunks are in play.
+		nLo, nHi int
 		// copies of the elements the consumer put back and has not re-read yet; they are at the front of
-		// the queue, the most recent put-back (last of this slice) first
+		// the queue, the most recent put-back (last of this slice) first. Never empty chunks.
 		fronts [][]byte
-		// what the last successful dequeues returned and was not put back, oldest first (at most
-		// MaxHeld; older ones count as consumed). Put-backs take the newest one, which restores the
-		// stream order whatever the number of outstanding put-backs.
-		held    [][]byte
-		maxHeld = d.MaxHeld
-		scratch []byte
-		cops    int
+		// what the last successful dequeues returned (non-empty results only) and was not put back,
+		// oldest first (at most MaxHeld; older ones count as consumed). Put-backs take the newest one,
+		// which restores the stream order whatever the number of outstanding put-backs.
+		held       [][]byte
+		maxHeld    = d.MaxHeld
+		scratch    []byte
+		cops       int
+		forced     []int // operations of a deep-queue round, executed before anything random
+		refillTo   int64
+		round      int
+		sinceRound = 1 << 30
 	)
-	// expectWhole compares b against whole chunks next, next+1, ...; returns the number matched or -1.
-	expectWhole := func(b []byte, atLeast, atMost int) (int, string) {
-		m := 0
-		for len(b) > 0 {
-			if next+m >= d.Chunks {
-				return -1, fmt.Sprintf("%d surplus bytes %s after the last chunk", len(b), clipB(b))
-			}
-			scratch = appendChunk(scratch[:0], d.Seed, next+m, d.MaxPayload)
-			if !bytes.HasPrefix(b, scratch) {
-				return -1, fmt.Sprintf("expected chunk %d %s, got %s (first id found: %d)", next+m, clipB(scratch), clipB(b), firstID(b))
-			}
-			b = b[len(scratch):]
-			m++
+	if maxHeld < 1 {
+		maxHeld = 1
+	}
+	skipEmpties := func(i int) int {
+		for i < d.Chunks && chunkEmpty(d, i) {
+			i++
 		}
-		if m < atLeast {
-			return -1, fmt.Sprintf("%d whole chunks, expected at least %d", m, atLeast)
+		return i
+	}
+	emptyAt := func(i int) bool { return i < d.Chunks && chunkEmpty(d, i) }
+	frontN := func() int64 { return int64(len(fronts)) }
+	take := func(b []byte) {
+		if len(b) == 0 {
+			return
 		}
-		if atMost >= 0 && m > atMost {
-			return -1, fmt.Sprintf("%d whole chunks", m)
+		if len(held) == maxHeld {
+			copy(held, held[1:])
+			held = held[:maxHeld-1]
 		}
-		return m, ""
+		held = append(held, b)
+	}
+	state := func() string {
+		return fmt.Sprintf("consumer's reference: first untaken chunk is %d..%d (chunks in between are empty chunks a DequeueAll may have taken), put-back elements at the front: %d", nLo, nHi, len(fronts))
 	}
 	classify := func(b []byte) string {
 		id := firstID(b)
 		switch {
 		case id < 0:
 			return "corrupt"
-		case id < next:
+		case id < nLo:
 			return "repeated"
-		case id > next:
+		case id > nHi:
 			return "skipped"
 		}
 		return "corrupt"
-	}
-	if maxHeld < 1 {
-		maxHeld = 1
-	}
-	frontN := func() int64 { return int64(len(fronts)) }
-	take := func(b []byte) {
-		if len(held) == maxHeld {
-			copy(held, held[1:])
-			held = held[:maxHeld-1]
-		}
-		held = append(held, b)
 	}
 	// expectFronts checks that b starts with the outstanding put-backs, the most recent first (all of
 	// them when all is set, else exactly the most recent one); returns the rest of b.
@@ -294,21 +316,117 @@ func (s *stressRun) consumer() {
 		}
 		return b, ""
 	}
+	publish := func() {
+		if d.Bounds {
+			s.consNext.Store(int64(nHi))
+		}
+	}
 	for {
 		if s.abort.Load() {
 			return
 		}
-		if next == d.Chunks && len(fronts) == 0 {
+		if nLo == d.Chunks && len(fronts) == 0 {
 			// everything was obtained; nothing more to put back
 			break
 		}
-		x := r.pm()
-		switch {
-		case len(held) > 0 && x < d.ReqPm:
+		// deep-queue rounds: let the producer pile up DeepRounds[round] chunks (it keeps enqueueing),
+		// then put-back + DequeueAll / Dequeue drains on the deep queue
+		sinceRound++
+		if round < len(d.DeepRounds) && len(forced) == 0 && sinceRound > 300 {
+			want := int64(d.DeepRounds[round])
+			lastDep, lastChange := int64(-1), time.Now()
+			p.waiting.Store(true)
+			for {
+				dep := int64(s.q.GetDepth())
+				if dep >= want || s.prodDone.Load() || s.abort.Load() {
+					break
+				}
+				if dep != lastDep {
+					lastDep, lastChange = dep, time.Now()
+				} else if time.Since(lastChange) > 300*time.Millisecond {
+					obs["deep_rounds_producer_stopped_short"]++
+					break
+				}
+				time.Sleep(200 * time.Microsecond)
+			}
+			p.waiting.Store(false)
+			dep := s.q.GetDepth()
+			if dep >= 8192 {
+				obs["deep_rounds_at_8192_or_more"]++
+			}
+			if dep >= 20000 {
+				obs["deep_rounds_at_20000_or_more"]++
+			}
+			if int64(dep) > obs["sum_of_deepest_queue_seen"] {
+				obs["sum_of_deepest_queue_seen"] = int64(dep)
+			}
+			refillTo = int64(dep)
+			switch r.next() % 6 {
+			case 0:
+				forced = []int{fDeq, fRefill, fReq, fAll}
+			case 1:
+				forced = []int{fDeq, fDeq, fRefill, fReq, fReq, fAll}
+			case 2:
+				forced = []int{fDeq, fRefill, fReq}
+				for k := 0; k < dep+2; k++ {
+					forced = append(forced, fDeq)
+				}
+			case 3:
+				forced = []int{fDeq, fRefill, fReq, fDepth, fAll, fDepth}
+			case 4:
+				forced = []int{fDeq, fReq, fAll}
+			default:
+				forced = []int{fAll}
+			}
+			obs["deep_rounds"]++
+			round++
+			sinceRound = 0
+		}
+		op := 0
+		tailOK := true
+		if len(forced) > 0 {
+			op, forced = forced[0], forced[1:]
+			tailOK = false
+			if op == fReq && len(held) == 0 {
+				continue
+			}
+			if op == fRefill {
+				lastDep, lastChange := int64(-1), time.Now()
+				p.waiting.Store(true)
+				for {
+					dep := int64(s.q.GetDepth())
+					if dep >= refillTo || s.prodDone.Load() || s.abort.Load() {
+						break
+					}
+					if dep != lastDep {
+						lastDep, lastChange = dep, time.Now()
+					} else if time.Since(lastChange) > 50*time.Millisecond {
+						break
+					}
+					time.Sleep(100 * time.Microsecond)
+				}
+				p.waiting.Store(false)
+				continue
+			}
+		} else {
+			x := r.pm()
+			switch {
+			case len(held) > 0 && x < d.ReqPm:
+				op = fReq
+			case x < d.ReqPm+d.DepthPm:
+				op = fDepth
+			case x < d.ReqPm+d.DepthPm+d.AllPm:
+				op = fAll
+			default:
+				op = fDeq
+			}
+		}
+		switch op {
+		case fReq:
 			// put back the most recently taken chunk: all of it, or (when it is the only one held) only
 			// its tail, the head counting as consumed
 			back := held[len(held)-1]
-			if d.Tail && len(held) == 1 && len(back) > 1 && r.pm() < 500 {
+			if tailOK && d.Tail && len(held) == 1 && len(back) > 1 && r.pm() < 500 {
 				back = back[1+int(r.next()%uint64(len(back)-1)):]
 				obs["ops_requeue_tail"]++
 			}
@@ -321,99 +439,142 @@ func (s *stressRun) consumer() {
 			}
 			tr.add(rec{op: "Requeue", b: back})
 			p.prog.Add(1)
-		case x < d.ReqPm+d.DepthPm:
+		case fDepth:
 			var lo, hi int64 = 0, -1
 			if d.Bounds {
-				lo = s.completed.Load() - int64(next)
+				lo = s.completed.Load() - int64(nHi)
 			}
 			dep := int64(s.q.GetDepth())
 			if d.Bounds {
-				hi = s.started.Load() - int64(next)
+				hi = s.started.Load() - int64(nLo)
 			}
 			obs["ops_depth_consumer"]++
 			p.prog.Add(1)
+			if lo < 0 {
+				lo = 0
+			}
 			lo += frontN()
 			if hi >= 0 {
 				hi += frontN()
 			}
-			if lo < frontN() {
-				lo = frontN()
-			}
 			if dep > obs["sum_of_max_depth_seen"] {
 				obs["sum_of_max_depth_seen"] = dep
 			}
-			if dep < lo || (hi >= 0 && dep > hi) || dep > int64(d.Chunks-next)+frontN() {
-				s.report("c20/depth-out-of-bounds:consumer", "consumer: GetDepth() = %d, but the queue held between %d and %d elements during the call (whole chunks taken so far: %d, put-back elements at the front: %d)\nlast consumer operations:\n%s",
-					dep, lo, hi, next, len(fronts), joinLines(tr.list()))
+			tr.add(rec{op: "GetDepth", dep: int(dep)})
+			if dep < lo || (hi >= 0 && dep > hi) || dep > int64(d.Chunks-nLo)+frontN() {
+				s.report("c20/depth-out-of-bounds:consumer", "consumer: GetDepth() = %d, but the queue held between %d and %d elements during the call (%s)\nlast consumer operations:\n%s",
+					dep, lo, hi, state(), joinLines(tr.list()))
 				return
 			}
-			tr.add(rec{op: "GetDepth", dep: int(dep)})
-		case x < d.ReqPm+d.DepthPm+d.AllPm:
+		case fAll:
 			pd := s.prodDone.Load()
-			var lo, hi int64 = 0, -1
+			var completedBefore, startedAfter int64 = -1, -1
 			if d.Bounds {
-				lo = s.completed.Load() - int64(next)
+				completedBefore = s.completed.Load()
 			}
 			b := s.q.DequeueAll()
 			if d.Bounds {
-				hi = s.started.Load() - int64(next)
+				startedAfter = s.started.Load()
 			}
 			p.prog.Add(1)
 			obs["ops_dequeueall"]++
 			if b == nil {
 				obs["ops_dequeueall_nil"]++
 				tr.add(rec{op: "DequeueAll"})
-				if len(fronts) > 0 || lo > 0 {
-					s.report("c20/empty-on-nonempty:dequeueall", "DequeueAll() returned nil although the queue held at least %d element(s) during the whole call (put-back elements at the front: %d, chunks whose Enqueue had returned before the call and not yet taken: %d)\nlast consumer operations:\n%s",
-						lo+frontN(), len(fronts), lo, joinLines(tr.list()))
+				// nil: the queue was empty, or held exactly one empty chunk (bytes.Join of one empty
+				// chunk is nil; the chunk is taken, nothing is lost)
+				sure := completedBefore - int64(nHi) // chunks that were certainly in the queue during the call
+				if len(fronts) > 0 || sure >= 2 || (sure == 1 && !emptyAt(nHi)) {
+					s.report("c20/empty-on-nonempty:dequeueall", "DequeueAll() returned nil although the queue certainly held more than one empty chunk during the whole call (put-back elements at the front: %d, chunks whose Enqueue had returned before the call and not yet taken: %d; %s)\nlast consumer operations:\n%s",
+						len(fronts), sure, state(), joinLines(tr.list()))
 					return
 				}
-				if pd && next < d.Chunks {
-					s.report("c20/stream:lost", "producer had finished all %d chunks before the call, consumer has taken %d, DequeueAll() reports an empty queue: chunks %d.. are lost\nlast consumer operations:\n%s",
-						d.Chunks, next, next, joinLines(tr.list()))
-					return
+				if emptyAt(nHi) {
+					nHi++
 				}
+				if pd {
+					if skipEmpties(nHi) < d.Chunks {
+						s.report("c20/stream:lost", "producer had finished all %d chunks before the call, DequeueAll() reports an empty queue, but chunk %d was never obtained: chunks %d.. are lost (%s)\nlast consumer operations:\n%s",
+							d.Chunks, skipEmpties(nHi), skipEmpties(nHi), state(), joinLines(tr.list()))
+						return
+					}
+					nLo, nHi = d.Chunks, d.Chunks // at most one (empty) chunk was left and it is taken now
+				}
+				publish()
 				runtime.Gosched()
 				continue
 			}
 			tr.add(rec{op: "DequeueAll", b: b})
 			rest := b
-			minWhole := 1
-			if len(fronts) > 0 {
+			hadFronts := len(fronts)
+			if hadFronts > 0 {
 				var why string
 				if rest, why = expectFronts(b, true); why != "" {
 					s.report("c20/stream:dequeueall-putback-not-first", "DequeueAll(): %s\nlast consumer operations:\n%s", why, joinLines(tr.list()))
 					return
 				}
-				minWhole = 0
-				if len(fronts) >= 2 {
+				if hadFronts >= 2 {
 					obs["dequeueall_with_two_or_more_outstanding_putbacks"]++
 				}
 			}
-			m, why := expectWhole(rest, minWhole, -1)
-			if m < 0 {
-				s.report("c20/stream:dequeueall-"+classify(rest), "DequeueAll(): %s\nlast consumer operations:\n%s", why, joinLines(tr.list()))
-				return
+			// the rest: whole chunks in order, empty chunks adding nothing
+			i, matched := nLo, 0
+			for len(rest) > 0 {
+				j := skipEmpties(i)
+				if j >= d.Chunks {
+					s.report("c20/stream:dequeueall-"+classify(rest), "DequeueAll(): %d surplus bytes %s after the last chunk (%s)\nlast consumer operations:\n%s", len(rest), clipB(rest), state(), joinLines(tr.list()))
+					return
+				}
+				scratch = appendChunk(scratch[:0], d.Seed, j, d.MaxPayload)
+				if !bytes.HasPrefix(rest, scratch) {
+					s.report("c20/stream:dequeueall-"+classify(rest), "DequeueAll(): expected chunk %d %s, got %s (first id found: %d; %s)\nlast consumer operations:\n%s", j, clipB(scratch), clipB(rest), firstID(rest), state(), joinLines(tr.list()))
+					return
+				}
+				rest = rest[len(scratch):]
+				i = j + 1
+				matched++
 			}
-			if d.Bounds && (int64(m) < lo || int64(m) > hi) {
-				s.report("c20/dequeueall-incomplete", "DequeueAll() returned %d whole chunks, but between %d and %d untaken chunks were in the queue during the call\nlast consumer operations:\n%s", m, lo, hi, joinLines(tr.list()))
-				return
+			newLo, newHi := nLo, nHi
+			if matched > 0 {
+				newLo = i
+				newHi = skipEmpties(i)
+			} else {
+				// no byte from whole chunks: only (if anything) empty chunks were taken
+				if hadFronts == 0 {
+					// a non-nil result takes at least one element
+					if nLo == nHi && !emptyAt(nHi) {
+						s.report("c20/stream:dequeueall-corrupt", "DequeueAll() returned an empty non-nil result, but the first untaken chunk %d is not empty (%s)\nlast consumer operations:\n%s", nHi, state(), joinLines(tr.list()))
+						return
+					}
+					newLo = nLo + 1
+				}
+				newHi = skipEmpties(nHi)
+				if newHi < newLo {
+					newHi = newLo
+				}
 			}
-			if m+int(frontN()) >= 2 {
+			if d.Bounds {
+				// everything whose Enqueue had returned before the call must have been taken; nothing
+				// whose Enqueue had not begun after it can have been
+				if int64(newHi) < completedBefore || int64(newLo) > startedAfter {
+					s.report("c20/dequeueall-incomplete", "DequeueAll() took the chunks up to %d..%d, but %d Enqueue calls had returned before the call and %d had begun after it\nlast consumer operations:\n%s",
+						newLo, newHi, completedBefore, startedAfter, joinLines(tr.list()))
+					return
+				}
+			}
+			if matched+hadFronts >= 2 {
 				obs["dequeueall_multi"]++
 			}
-			next += m
+			nLo, nHi = newLo, newHi
 			fronts = fronts[:0]
 			take(b)
 			obs["bytes_consumed_gross"] += int64(len(b))
-			if d.Bounds {
-				s.consNext.Store(int64(next))
-			}
-		default:
+			publish()
+		case fDeq:
 			pd := s.prodDone.Load()
-			var lo int64
+			var sure int64
 			if d.Bounds {
-				lo = s.completed.Load() - int64(next)
+				sure = s.completed.Load() - int64(nHi)
 			}
 			b := s.q.Dequeue()
 			p.prog.Add(1)
@@ -421,21 +582,25 @@ func (s *stressRun) consumer() {
 			if b == nil {
 				obs["ops_dequeue_nil"]++
 				tr.add(rec{op: "Dequeue"})
-				if len(fronts) > 0 || lo > 0 {
-					s.report("c20/empty-on-nonempty:dequeue", "Dequeue() returned nil although the queue held at least %d element(s) during the whole call (put-back elements at the front: %d, chunks whose Enqueue had returned before the call and not yet taken: %d)\nlast consumer operations:\n%s",
-						lo+frontN(), len(fronts), lo, joinLines(tr.list()))
+				if len(fronts) > 0 || sure > 0 {
+					s.report("c20/empty-on-nonempty:dequeue", "Dequeue() returned nil although the queue held at least %d element(s) during the whole call (put-back elements at the front: %d, chunks whose Enqueue had returned before the call and not yet taken: %d; %s)\nlast consumer operations:\n%s",
+						sure+frontN(), len(fronts), sure, state(), joinLines(tr.list()))
 					return
 				}
-				if pd && next < d.Chunks {
-					s.report("c20/stream:lost", "producer had finished all %d chunks before the call, consumer has taken %d, Dequeue() reports an empty queue: chunks %d.. are lost\nlast consumer operations:\n%s",
-						d.Chunks, next, next, joinLines(tr.list()))
-					return
+				if pd {
+					if nHi < d.Chunks {
+						s.report("c20/stream:lost", "producer had finished all %d chunks before the call, Dequeue() reports an empty queue, but chunk %d was never obtained: chunks %d.. are lost (%s)\nlast consumer operations:\n%s",
+							d.Chunks, nHi, nHi, state(), joinLines(tr.list()))
+						return
+					}
+					nLo = d.Chunks // only empty chunks a DequeueAll took were in doubt
 				}
 				runtime.Gosched()
 				continue
 			}
 			tr.add(rec{op: "Dequeue", b: b})
-			if len(fronts) > 0 {
+			switch {
+			case len(fronts) > 0:
 				if rest, why := expectFronts(b, false); why != "" || len(rest) != 0 {
 					s.report("c20/stream:dequeue-putback-not-first", "Dequeue(): %s (expected exactly the most recent put-back)\nlast consumer operations:\n%s", why, joinLines(tr.list()))
 					return
@@ -444,19 +609,35 @@ func (s *stressRun) consumer() {
 					obs["dequeue_with_two_or_more_outstanding_putbacks"]++
 				}
 				fronts = fronts[:len(fronts)-1]
-			} else {
-				m, why := expectWhole(b, 1, 1)
-				if m < 0 {
-					s.report("c20/stream:dequeue-"+classify(b), "Dequeue(): %s\nlast consumer operations:\n%s", why, joinLines(tr.list()))
+			case len(b) == 0:
+				// exactly one element per call: an empty chunk that is at the head comes out as such
+				hi := nHi
+				if emptyAt(nHi) {
+					hi = nHi + 1
+				}
+				if hi < nLo+1 {
+					scratch = stressChunk(scratch[:0], d, nHi)
+					s.report("c20/stream:dequeue-corrupt", "Dequeue() returned an empty chunk, expected chunk %d %s (%s)\nlast consumer operations:\n%s", nHi, clipB(scratch), state(), joinLines(tr.list()))
 					return
 				}
-				next++
+				nLo, nHi = nLo+1, hi
+				obs["dequeue_returned_empty_chunk"]++
+			default:
+				scratch = stressChunk(scratch[:0], d, nHi)
+				if nHi >= d.Chunks || !bytes.Equal(b, scratch) {
+					why := ""
+					if nLo == nHi && emptyAt(nHi) {
+						why = " - an empty chunk is at the head of the queue: Dequeue takes exactly one element, the empty chunk"
+					}
+					s.report("c20/stream:dequeue-"+classify(b), "Dequeue(): expected chunk %d %s, got %s (first id found: %d)%s (%s)\nlast consumer operations:\n%s",
+						nHi, clipB(scratch), clipB(b), firstID(b), why, state(), joinLines(tr.list()))
+					return
+				}
+				nLo, nHi = nHi+1, nHi+1
 			}
 			take(b)
 			obs["bytes_consumed_gross"] += int64(len(b))
-			if d.Bounds {
-				s.consNext.Store(int64(next))
-			}
+			publish()
 		}
 		if d.CYieldPm > 0 && r.pm() < d.CYieldPm {
 			runtime.Gosched()
@@ -468,7 +649,7 @@ func (s *stressRun) consumer() {
 			}
 		}
 	}
-	obs["chunks_consumed"] = int64(next)
+	obs["chunks_consumed"] = int64(nLo)
 }
 
 func joinLines(l []string) string {
